@@ -101,6 +101,12 @@ def run_one(tape, cfg):
             chunks = tuple(split(tape, s) for s in shape)
             srcs.append({"shape": shape, "chunks": chunks, "off": tuple(tape.draw(3, "off") for _ in shape),
                          "pad": tuple(tape.draw(3, "pad") for _ in shape)})
+        many_blocks = npy and tape.chance(1, 3, "many_blocks")
+        if many_blocks:
+            # more than ten blocks along the stacking axis (block files 0.npy ... 1x.npy)
+            n0 = 11 + tape.draw(4, "n0big")
+            srcs[0]["shape"] = (n0,) + tuple(srcs[0]["shape"][1:])
+            srcs[0]["chunks"] = ((1,) * n0,) + tuple(srcs[0]["chunks"][1:])
     wl = {"ndim": ndim, "shared": shared, "g": g, "advertise_chunks": advertise, "lock": lock_kind, "compute": compute, "separate_calls": separate,
           "return_stored": return_stored, "regions": use_regions, "nworkers": nworkers,
           "policy": policy, "sources": srcs, "npy": npy}
@@ -139,6 +145,9 @@ def run_one(tape, cfg):
                 shutil.rmtree(scratch, ignore_errors=True)
                 x = arrays[0]
                 axis = tape.draw(x.ndim, "axis")
+                if many_blocks:
+                    axis = 0
+                    out.probe("npy_stack_many_blocks")
                 dx = da.from_array(x, chunks=srcs[0]["chunks"])
 
                 def client():
